@@ -52,10 +52,14 @@ def load_known() -> typing.List[dict]:
         return json.load(fp).get("findings", [])
 
 
+_LIVE_SCRATCH: typing.List["Scratch"] = []
+
+
 class Scratch:
     """A scratch directory outside /repo and /verif, removed on exit."""
 
     def __init__(self, tag: str):
+        _LIVE_SCRATCH.append(self)
         base = os.environ.get("VERIF_SCRATCH") or "/var/tmp"
         os.makedirs(base, exist_ok=True)
         self.path = tempfile.mkdtemp(prefix="vf-%s-" % tag, dir=base)
@@ -129,6 +133,40 @@ class Check:
         self.known = [k for k in load_known() if k.get("property") == pid]
         import threading
         self._lock = threading.RLock()   # checks may report from several harness threads
+
+        self._register_hang_reporter()
+
+    def _register_hang_reporter(self) -> None:
+        """A connection handler that never returns is a violation of 'bounded time'
+        (and makes every other verdict of the run impossible): report it and exit 1."""
+        try:
+            from vf import driver
+        except Exception:
+            return
+
+        def report(desc, stack):
+            import re as _re
+
+            frames = _re.findall(r'File "([^"]+)", line \d+, in (\S+)', stack)
+            where = "?"
+            for f, fn in reversed(frames):
+                if "/pygopherd/" in f or "/simpletal/" in f:
+                    where = "%s:%s" % (f.rsplit("/", 1)[-1], fn)
+                    break
+            key = "%s/request-never-returns@%s" % (self.pid, where)
+            self.witness(key, {"request": desc, "stack": stack[-1500:]})
+            try:
+                self.finish(rule="run aborted: a request did not return within the hang watchdog's limit",
+                            assumptions=["watchdog limit %s s" % driver.WATCHDOG.limit], min_distinct=0)
+            except Exception:
+                print("VIOLATION property=%s replay=%s" % (self.pid, "(none)"))
+            for sc in list(_LIVE_SCRATCH):
+                try:
+                    sc.cleanup()
+                except Exception:
+                    pass
+
+        driver.WATCHDOG.reporter = report
 
     # ---- bookkeeping -------------------------------------------------------------
     def subrng(self, *tag) -> random.Random:
